@@ -31,7 +31,8 @@ def run(scn, seed, line_p=0.05, stick=0.5, decisions=None, rpc_timeout=2):
     import amqpstorm
     from pamqp import specification as spec
     rt, br, conn = cconn.new_connection(
-        seed, rt_kw=dict(line_p=0.0, stick=stick, decisions=decisions), timeout=1)
+        seed, rt_kw=dict(line_p=0.0, stick=stick, decisions=decisions), timeout=1,
+        broker_cfg=dict(channel_max=scn['channel_max']) if scn.get('channel_max') else None)
     br.strict_close = True
     st = {'chans': {}}
     nack = []
